@@ -14,9 +14,10 @@
      non-smooth integrand |B'| is real analysis this development does not attempt.  BezierPath.length = sum of the
      segment lengths is a fold in the hand model checked by the correspondence. *)
 
+From Flocq Require Import Core.   (* bpow, radix2 for the float statements; imported first so that [float] below is PrimFloat.float *)
 From Coq Require Import PrimFloat.
 From Coq Require Import ZArith List Bool Reals Lra Permutation.
-From BZ Require Import Base.Ops Gen.Point Gen.Affine Gen.Line Gen.Quad Gen.Cubic Proofs.C04.
+From BZ Require Import Base.Ops Gen.Point Gen.Affine Gen.Line Gen.Quad Gen.Cubic Proofs.C04 Proofs.C15float Base.FloatErr Proofs.C01float.
 Import ListNotations.
 Open Scope R_scope.
 
@@ -92,6 +93,18 @@ Proof. exact straight_cubic_length. Qed.
 Theorem C04_arch_cubic_length :
   let s := C4 (P 0 0) (P 0 1) (P 1 1) (P 1 0) in 1 - 3 / 10 ^ 25 <= Cubic_length ROps s <= 3 + 3 / 10 ^ 25.
 Proof. exact arch_cubic_length. Qed.
+Theorem C04_line_length_float_close :
+  forall M (l : seg2 float), M <= bpow radix2 500 -> seg2_ok M l -> ffinite (Line_length FOps l) /\ Rabs (FR (Line_length FOps l) - Line_length ROps (seg2R l)) <= (3 + /32) * u * Line_length ROps (seg2R l) + bpow radix2 (-535).
+Proof. exact line_length_float_close. Qed.
+Theorem C04_line_length_float_close_rel :
+  forall M (l : seg2 float), M <= bpow radix2 500 -> seg2_ok M l -> bpow radix2 (-400) <= Line_length ROps (seg2R l) -> ffinite (Line_length FOps l) /\ Rabs (FR (Line_length FOps l) - Line_length ROps (seg2R l)) <= 4 * u * Line_length ROps (seg2R l).
+Proof. exact line_length_float_close_rel. Qed.
+Theorem C04_line_length_float_close_M :
+  forall M (l : seg2 float), M <= bpow radix2 500 -> seg2_ok M l -> ffinite (Line_length FOps l) /\ Rabs (FR (Line_length FOps l) - Line_length ROps (seg2R l)) <= 10 * u * M + bpow radix2 (-535).
+Proof. exact line_length_float_close_M. Qed.
+Theorem C04_line_length_example :
+  ffinite (Line_length FOps ex_line) /\ Rabs (FR (Line_length FOps ex_line) - Line_length ROps (seg2R ex_line)) <= (3 + / 32) * u * Line_length ROps (seg2R ex_line) + bpow radix2 (-535).
+Proof. exact line_length_example. Qed.
 
 Print Assumptions C04_cubic_length_is_gl.
 Print Assumptions C04_quad_length_is_gl.
@@ -117,3 +130,7 @@ Print Assumptions C04_chord_le_length_quad.
 Print Assumptions C04_line_length_additive.
 Print Assumptions C04_straight_cubic_length.
 Print Assumptions C04_arch_cubic_length.
+Print Assumptions C04_line_length_float_close.
+Print Assumptions C04_line_length_float_close_rel.
+Print Assumptions C04_line_length_float_close_M.
+Print Assumptions C04_line_length_example.
